@@ -356,6 +356,20 @@ def r4(ctx):
                 excused |= zero_trip_only & pre
     if checked == 0:
         raise AnalysisError("no read of the model state after the round loop")
+    # the reported cost is the final state's own cost field (not a running minimum, not a cost kept from an earlier round)
+    ctor = calls_to(ana, fi, "fast_ticc.containers.results.SingleDataSeriesResult")
+    if len(ctor) == 1:
+        kw = ctor_args(ana, ctor[0])
+        v = kw.get("label_assignment_cost")
+        fl_ = Flow(ana, fi)
+        hops = 0
+        while isinstance(v, ast.Name) and hops < 3:
+            d_ = fl_.sole_def(v.id, fl_.at(v))
+            v = d_.ast.value if d_ is not None and isinstance(d_.ast, ast.Assign) and len(d_.ast.targets) == 1 and isinstance(d_.ast.targets[0], ast.Name) else None
+            hops += 1
+        ok = isinstance(v, ast.Attribute) and v.attr == "label_assignment_cost" and isinstance(v.value, ast.Name) and ana.res.type_of(fi, v.value) == MODEL_STATE
+        ctx.check(ok, fi, "the reported label_assignment_cost is the cost field of the state the result is built from", line=ctor[0].node.lineno,
+                  role="result-cost", expected="label_assignment_cost=<final state>.label_assignment_cost", found=unparse(kw.get("label_assignment_cost")) if kw.get("label_assignment_cost") is not None else "missing")
     if excused:
         ctx.note("pre-loop definitions of the state reach the result only along the zero-trip edge of the loop, which "
                  "C09.R1 (assert iteration_limit > 0 dominating range(iteration_limit)) makes infeasible")
@@ -413,6 +427,8 @@ def r7(ctx):
     from . import c12
     ctx.sub(c12.r3, only=("unconditional", "range", "slot"))     # every cluster's statistics are refitted to the current labels, one-member clusters included
     ctx.sub(c12.r1)                                       # ... from the rows of its current members (not from a table keyed by something else)
+    from . import c03
+    ctx.sub(c03.r5, only=("logdet:refresh",))             # the relabel table's log-determinants are taken by slogdet (no determinant is formed)
 
 
 # ---------------------------------------------------------------------------------------------------------------------------
